@@ -72,6 +72,17 @@ theorem c17_fwd_peek (s : State) (i : In) :
   obtain ⟨w, r, p, c⟩ := i
   cases p <;> simp [step]
 
+
+-- OBLIGATION c17_fwd_callers : when several transactions call read (resp. write) in one cycle, at most one of the callers executes, it is one that attempted, and it gets exactly the single-port outcome of the step — so the theorems above hold for the union of all callers (every value delivered to exactly one reader)
+theorem c17_fwd_callers (s : State) (ow or : List Nat) (i : MIn) (k1 k2 v1 v2 : Nat) :
+    let e := eff ow or i
+    let o := (step s ⟨e.w, e.r, e.p, e.c⟩).2
+    ((onlyTo i.ws.length e.gr o.rd)[k1]? = some (some v1) → (onlyTo i.ws.length e.gr o.rd)[k2]? = some (some v2) →
+        k1 = k2 ∧ o.rd = some v1 ∧ i.rs.getD k1 false = true) ∧
+    ((onlyTo i.ws.length e.gw o.wr)[k1]? = some (some v1) → (onlyTo i.ws.length e.gw o.wr)[k2]? = some (some v2) →
+        k1 = k2 ∧ o.wr = some v1 ∧ (i.ws.map Option.isSome).getD k1 false = true) :=
+  ⟨fun h1 h2 => callers_exclusive h1 h2, fun h1 h2 => callers_exclusive h1 h2⟩
+
 /-- non-vacuity: forwarding, buffering, a clear that wins over an executed write, forwarding in a clear cycle -/
 example :
     let is : List In := [⟨some 1, true, true, false⟩, ⟨some 2, false, false, false⟩, ⟨some 3, true, false, false⟩,
@@ -139,6 +150,25 @@ theorem c17_pipe_peek (s : State) (i : In) :
   obtain ⟨w, r, p, c⟩ := i
   cases p <;> simp [step]
 
+
+-- OBLIGATION c17_pipe_callers : when several transactions call read (resp. write) in one cycle, at most one of the callers executes, it is one that attempted, and it gets exactly the single-port outcome of the step — so the theorems above hold for the union of all callers (every value delivered to exactly one reader)
+theorem c17_pipe_callers (s : State) (ow or : List Nat) (i : MIn) (k1 k2 v1 v2 : Nat) :
+    let e := eff ow or i
+    let o := (step s ⟨e.w, e.r, e.p, e.c⟩).2
+    ((onlyTo i.ws.length e.gr o.rd)[k1]? = some (some v1) → (onlyTo i.ws.length e.gr o.rd)[k2]? = some (some v2) →
+        k1 = k2 ∧ o.rd = some v1 ∧ i.rs.getD k1 false = true) ∧
+    ((onlyTo i.ws.length e.gw o.wr)[k1]? = some (some v1) → (onlyTo i.ws.length e.gw o.wr)[k2]? = some (some v2) →
+        k1 = k2 ∧ o.wr = some v1 ∧ (i.ws.map Option.isSome).getD k1 false = true) :=
+  ⟨fun h1 h2 => callers_exclusive h1 h2, fun h1 h2 => callers_exclusive h1 h2⟩
+
+/-- non-vacuity of the multi-caller statement: two readers and two writers compete, one of each wins -/
+example :
+    let i : MIn := ⟨[some 5, some 6], [true, true], [false, true], false⟩
+    let e := eff [1, 0] [0, 1] i
+    e.gw = some 1 ∧ e.w = some 6 ∧ e.gr = some 0 ∧
+    onlyTo 2 e.gr (step ⟨9, true⟩ ⟨e.w, e.r, e.p, e.c⟩).2.rd = [some 9, none] ∧
+    onlyTo 2 e.gw (step ⟨9, true⟩ ⟨e.w, e.r, e.p, e.c⟩).2.wr = [none, some 6] := by decide
+
 /-- non-vacuity: pass-through (read and write in one cycle when full), a blocked write, a clear
     that wins over an executed write -/
 example :
@@ -156,6 +186,8 @@ end TxV.Pipe
 #print axioms TxV.Forwarder.c17_fwd_ready
 #print axioms TxV.Forwarder.c17_fwd_clear
 #print axioms TxV.Forwarder.c17_fwd_peek
+#print axioms TxV.Forwarder.c17_fwd_callers
+#print axioms TxV.Pipe.c17_pipe_callers
 #print axioms TxV.Pipe.c17_pipe_order
 #print axioms TxV.Pipe.c17_pipe_read_value
 #print axioms TxV.Pipe.c17_pipe_ready
